@@ -33,10 +33,14 @@ Aliasing: every array / list handed to a setter, the power vector and the channe
     bit-identical after the call; the caller then re-uses its buffers (list slots rebound, in-place scaling
     of the full_F matrices and of the P vector): the solver must not change.
 
-Error paths: in every distinct state a list of INVALID calls (P = 0 / negative / sequence with a zero / wrong
-    length, set_precoders(), set_receive_filters() with neither / both, solve with an Ns of wrong length or a
-    non-positive power, randomizeF with a non-positive power, unknown initialize_with) must raise and leave the
-    whole object (digest of all attributes, channel included) exactly as it was.
+Invalid calls (tools/INVALID_CALL_POLICY.md): in every distinct state a list of INVALID calls (P = 0 /
+    negative / sequence with a zero / wrong length, set_precoders(), set_receive_filters() with neither / both,
+    solve with an Ns of wrong length or a non-positive power, randomizeF with a non-positive power, unknown
+    initialize_with) is made.  Whether a call raises and whether the object changes are recorded OUTCOMES.
+    Required (property: "these relations keep holding after any later change ... through the public setters"):
+    what the solver REPORTS afterwards (F, P, W_H read back) still satisfies full_F = F sqrt(P), ||F_k|| = 1,
+    the power relation, W = W_H^H, the identity relation and Ns vs shapes; then P = 2.0 and a solve are judged
+    as usual.
 initialize_with='fix' (E1: precoders set by hand or left by an earlier solve with another power; E3: event
     `initialize_with = 'fix'` followed by solve(Ns, P0) / solve(Ns, other P) / solve(Ns)): all relations for the
     REQUESTED power, and equality with a fresh solver continued from the same precoders.
@@ -70,7 +74,8 @@ RULE = ("E1: every (solver, K, Nr, Nt, Ns, initialize_with, power, generic chann
         "reference model; the alphabet includes channel-side events (new realisation, path loss, noise) "
         "of the bound channel object, caller-side re-use of the buffers passed to the setters, "
         "initialize_with='fix' and solve with the base / another / no power; in every distinct state a list "
-        "of invalid calls must raise and leave the whole-object digest unchanged; every history of length "
+        "of invalid calls is made (raising / changing the object are outcomes) and the relations must hold "
+        "on the state the solver reports afterwards; every history of length "
         "<= 2 is also run on two alternately used live objects")
 
 EPS = 2.0 ** -52
@@ -1192,10 +1197,11 @@ class E3Job:
                              observed=as_list(f.full_W_H, K), expected=want)
             except np.linalg.LinAlgError:
                 chk.count("excluded_e3_equivalent_channel_kappa>1e6")
-        # ---- error paths: invalid calls must raise and leave the whole object as it was
+        # ---- invalid calls (tools/INVALID_CALL_POLICY.md): what the call does is an OUTCOME; what the
+        # solver REPORTS afterwards must still satisfy every relation of the property
         if st["digest"] not in self._err_done and not bad:
             self._err_done.add(st["digest"])
-            self.error_paths(sv, case)
+            self.error_paths(sv, case, md, hkl)
         return rec
 
     def _invalid_calls(self, sv):
@@ -1219,24 +1225,100 @@ class E3Job:
             calls.append(("initialize_with=<unknown>", lambda: setattr(sv, "initialize_with", "bogus")))
         return calls
 
-    def error_paths(self, sv, case):
-        chk = self.chk
+    def reported_relations(self, sv, md, hkl, unit_before):
+        """the relations of the property evaluated on what the solver REPORTS (F, P, W_H as read
+        from the object, not the reference model); returns the names of the failing relations.
+        Relations whose inputs are not reported (None) are vacuous."""
+        K = self.K
+        try:
+            Fv, Pv, WHv, Nsv = sv.F, sv.P, sv.W_H, sv.Ns
+        except Exception as e:  # noqa
+            return ["reported_state_unreadable:" + type(e).__name__]
+        F, WH = as_list(Fv, K), as_list(WHv, K)
+        fails = []
+        P = None
+        try:
+            P = np.asarray(Pv, dtype=float)
+            if P.shape != (K,):
+                fails.append("P_shape")
+                P = None
+        except Exception:  # noqa
+            fails.append("P_shape")
+        if Fv is not None and F is None:
+            fails.append("F_shape")
+        if F is not None:
+            try:
+                if [int(x) for x in Nsv] != [x.shape[1] for x in F]:
+                    fails.append("Ns_vs_shapes")
+            except Exception:  # noqa
+                fails.append("Ns_vs_shapes")
+            if unit_before and any(not abs(np.linalg.norm(x) - 1.0) <= UNIT_TOL for x in F):
+                fails.append("F_unit_norm")
+        FF = None
+        if F is not None and P is not None:
+            try:
+                FF = as_list(sv.full_F, K)
+            except Exception as e:  # noqa
+                fails.append("full_F_unreadable:" + type(e).__name__)
+            if FF is None and not fails:
+                fails.append("full_F_shape")
+            if FF is not None:
+                relaxed = md["FFx"] is not None or md["FFalt"] is not None or \
+                    self.base["solver"] == "MMSEIASolver"
+                for k in range(K):
+                    p = float(np.linalg.norm(FF[k]) ** 2)
+                    exact = same(FF[k], F[k] * math.sqrt(P[k]), 1e-12) if P[k] >= 0 else False
+                    if exact:
+                        continue
+                    if relaxed and P[k] > 0 and p <= P[k] * (1 + MMSE_POWER_RTOL) and \
+                            same(FF[k], F[k] * math.sqrt(p), 1e-6):
+                        continue
+                    fails.append("power" if p > max(P[k], 0.0) * (1 + MMSE_POWER_RTOL)
+                                 else "full_F_vs_F_sqrtP")
+                    break
+        if WH is not None:
+            try:
+                W = as_list(sv.W, K)
+                if W is None or not all(np.array_equal(W[k], WH[k].conj().T) for k in range(K)):
+                    fails.append("W_vs_W_H")
+            except Exception as e:  # noqa
+                fails.append("W_unreadable:" + type(e).__name__)
+        if WH is not None and FF is not None and not md["dirty"] and \
+                all(WH[k].shape[0] == FF[k].shape[1] for k in range(K)):
+            try:
+                FWH = as_list(sv.full_W_H, K)
+                FW = as_list(sv.full_W, K)
+            except Exception as e:  # noqa
+                fails.append("full_W_H_unreadable:" + type(e).__name__)
+                FWH = None
+            if FWH is not None:
+                for k in range(K):
+                    Heq = WH[k] @ hkl(k, k) @ FF[k]
+                    kap = families.cond(Heq)
+                    if not kap <= 1e6:
+                        continue
+                    I = FWH[k] @ hkl(k, k) @ FF[k]
+                    if I.shape != (FF[k].shape[1],) * 2 or \
+                            not maxabs(I - np.eye(I.shape[0])) <= IDENT_C * EPS * kap:
+                        fails.append("identity")
+                        break
+                if FW is None or not all(np.array_equal(FW[k], FWH[k].conj().T) for k in range(K)):
+                    fails.append("full_W_vs_full_W_H")
+        return fails
+
+    def error_paths(self, sv, case, md, hkl):
+        chk, K, b = self.chk, self.K, self.base
         calls = self._invalid_calls(sv)
 
         def whole():
             seen = {id(sv._multiUserChannel): 0}
             return bfs.digest(_scaled(dict(vars(sv)), seen), 9)
 
-        def attrs():
-            seen = {id(sv._multiUserChannel): 0}
-            return {k: bfs.digest(_scaled(v, seen), 9) for k, v in vars(sv).items()}
-
         NAMES = ("_F", "_full_F", "_W", "_W_H", "_full_W_H", "_full_W", "_P", "_Ns", "_initialize_with",
                  "_runned_iterations", "max_iterations", "_mu", "_C")
 
         def fingerprint():
-            # cheap (identity / small values) and only used to ATTRIBUTE a change to one call;
-            # soundness rests on the whole-object digests taken before and after all calls
+            # cheap (identity / small values): tells after WHICH call the object changed
             out = {}
             for nm in NAMES:
                 v = getattr(sv, nm, None)
@@ -1248,55 +1330,60 @@ class E3Job:
                     out[nm] = id(v)
             return out
 
-        def run(slow):
-            """slow=False: fingerprint after every call, whole digest before/after all calls;
-            slow=True: per-attribute digests around every call (used on a rebuilt object when the
-            whole digest changed although no fingerprint did)"""
-            seen_change = False
-            before = attrs() if slow else fingerprint()
-            for what, call in calls:
-                chk.count("eval_error_path_calls")
-                try:
-                    call()
-                except Exception as e:  # noqa
-                    exc = type(e).__name__
-                else:
-                    chk.fail(("error_path", what, "accepted"), dict(case, invalid_call=what),
-                             observed="no exception", expected="raises and changes nothing")
-                    seen_change = True
-                    before = attrs() if slow else fingerprint()
-                    continue
-                after = attrs() if slow else fingerprint()
-                changed = sorted(k for k in set(before) | set(after) if before.get(k) != after.get(k))
-                if changed:
-                    seen_change = True
-                    chk.fail(("error_path", what, "changes_object"), dict(case, invalid_call=what),
-                             observed="%s raised, but these attributes changed: %s"
-                             % (exc, ", ".join(changed)),
-                             expected="object identical to before the rejected call")
-                    before = after      # the remaining calls are judged against the object as it is now
-            return seen_change
+        try:
+            unit_before = all(abs(np.linalg.norm(x) - 1.0) <= UNIT_TOL for x in as_list(sv.F, K))
+        except Exception:  # noqa
+            unit_before = False
+
+        def judge(what):
+            """coherence of the REPORTED state after the invalid call `what`"""
+            chk.count("eval_reported_state_after_invalid_call")
+            for rel in self.reported_relations(sv, md, hkl, unit_before):
+                chk.fail(("after_invalid_call", what, rel.split(":")[0]), dict(case, invalid_call=what),
+                         observed="relation %s fails on the reported state (P=%r)" % (rel, _safe_P(sv)),
+                         expected="every relation of the property holds for what the solver reports")
+                return False
+            return True
 
         d0 = whole()
-        snap = chan_snapshot(sv._multiUserChannel)
-        seen_change = run(False)
-        try:
-            chan_unchanged(sv._multiUserChannel, snap, "channel")
-        except InputMutated:
-            chk.fail(("error_path", "<some invalid call>", "changes_channel_object"), case)
-        if not seen_change and whole() != d0:
-            chk.count("error_path_slow_attribution")
-            st2 = self.build(_tuplify(case["history"]))
-            sv = st2["solver"]
-            for v in ("F", "P", "Ns", "W_H", "W", "full_F", "full_W_H", "full_W"):
-                try:
-                    getattr(sv, v)
-                except Exception:  # noqa
-                    pass
-            calls[:] = self._invalid_calls(sv)
-            if not run(True):
-                chk.fail(("error_path", "<some invalid call>", "changes_object"), case,
-                         observed="whole-object digest differs after the rejected calls")
+        fp = fingerprint()
+        changed_any, coherent = False, True
+        for what, call in calls:
+            chk.count("eval_invalid_calls")
+            try:
+                call()
+                how = "accepted"
+            except Exception as e:  # noqa
+                how = "raised:" + type(e).__name__
+            fp2 = fingerprint()
+            changed = fp2 != fp
+            fp = fp2
+            chk.outcome("invalid_call", (what, how, "object_changed" if changed else "object_unchanged"))
+            if changed or how == "accepted":
+                changed_any = True
+                coherent = judge(what) and coherent
+        if not changed_any and whole() != d0:
+            changed_any = True
+            chk.outcome("invalid_call", ("<some invalid call>", "?", "object_changed"))
+            coherent = judge("<some invalid call>")
+        if changed_any and coherent:
+            # subsequent VALID calls are judged as usual on the object as it is now
+            try:
+                sv.P = 2.0
+                ok = judge("<then P=2.0>")
+                if ok and as_list(sv.F, K) is not None:
+                    e3_solve(sv, b, 0)
+                    md2 = dict(md, FFx=None, FFalt=None, dirty=False)
+                    hk, Hbig = self.heff(md["chan"])
+                    check_solution(chk, sv, Hbig,
+                                   dict(case, solver=b["solver"], K=K, Nr=b["Nr"], Nt=b["Nt"], Ns=b["Ns"],
+                                        P=solve_power(b, 0), init=md["init"] or b["init"],
+                                        after_invalid_calls=True), b["n"])
+                    judge("<then solve>") if md2 is not None else None
+            except Exception as e:  # noqa
+                chk.fail(("after_invalid_call", "<then valid calls>", "exception", type(e).__name__,
+                          exc_where(e)), case, observed="%s: %s" % (type(e).__name__, e),
+                         expected="valid calls keep working")
 
     # ---- BFS plumbing ------------------------------------------------------
     def run(self):
@@ -1468,6 +1555,13 @@ def main(chk: Check):
     chk.require_outcomes("configuration", 40)
     chk.require_outcomes("iterations_run", 6)
     chk.require_outcomes("cost_strictly_decreased", 4)
+
+
+def _safe_P(sv):
+    try:
+        return np.asarray(sv.P).tolist()
+    except Exception as e:  # noqa
+        return "unreadable: %s" % type(e).__name__
 
 
 def _tuplify(h):
